@@ -72,6 +72,11 @@ func New(filename string, src io.Reader) (*Lexer, error) {
 		return nil, err
 	}
 
+	// The input buffer uses the NUL character as its end marker and would report the end of the input there.
+	// A NUL character is not part of any token. It is replaced by its control picture (U+2400), which is not
+	// part of any token either, so that it is reported as a lexical error at the same position.
+	data = bytes.ReplaceAll(data, []byte{0x00}, []byte("\u2400"))
+
 	in, err := input.New(filename, bytes.NewReader(append(data, '\n')), bufferSize)
 	if err != nil {
 		return nil, err
